@@ -4,25 +4,40 @@
   `BMV.WfBM` on each:
       WF <0|1> cf=<0|1> reasons=<r1,r2,..|-> unmodelled=<op,..|-> words=<#ROM words> cps=<#processors>
   (cf = `CfClosed`: every jump target is inside the program; reported, not part of the verdict)
-  `CASE`, `F`, `R` lines are echoed.  When a machine uses opcodes outside the shared layout table
+  `CASE`, `F`, `R` lines are echoed.  When the harness sends the source text (`F S <text>`, or `FS <text>`
+for a file set) its `cpdef`/`ioatt` lines are read (`scanWiring`) and the machine's external port
+counts and bonds are compared with them (`Basm.wiringAgrees`); a difference is one more reason.  When a machine uses opcodes outside the shared layout table
   its verdict is printed but the reason list says so (`opcode-unmodelled-or-wrong-mode`) and the
   opcodes are listed: the driver reports such instances as *unmodelled*, not as ill-formed.
 -/
 import BMV.WfBM
 import BMV.BasmText
+import BMV.BasmSem
 import BMV.Lines
 open BMV BMV.Lines BMV.BasmText
 
 structure St where
   bm : Option BM := none
+  wire : Option Basm.Source := none   -- the `cpdef`/`ioatt` lines of the source, when the harness sent its text
 
 def unmodelled (bm : BM) : List String :=
   (bm.cps.flatMap fun cp => cp.arch.ops.filter fun op => (layout op).isNone).eraseDups
 
-def verdict (bm0 : BM) : String :=
+def wiringReason (wire : Option Basm.Source) (bm : BM) : List String :=
+  match wire with
+  | some src =>
+    if Basm.wiringAgrees src bm then [] else
+    let ps := Basm.pairs src.procs src.ioatts
+    let want := Basm.wiringOf src (bm.cps.map fun cp => (cp.arch.n, cp.arch.m))
+    let sb (l : List (Topology.Bond × Topology.Bond)) := ";".intercalate (l.map fun p => s!"{showBond p.1}>{showBond p.2}")
+    [s!"wiring-differs-from-ioatt-lines[inputs:{bm.topo.inputs}/{Basm.extCount 0 ps};outputs:{bm.topo.outputs}/{Basm.extCount 1 ps};bonds:{sb (Topology.bonds bm.topo)}/{sb want}]"]
+  | none => []
+
+def verdict (wire : Option Basm.Source) (bm0 : BM) : String :=
   let bm := finishBM bm0
-  let ok := WfBM bm
-  let rs := WfBM.explain bm
+  let wr := wiringReason wire bm
+  let ok := WfBM bm && wr.isEmpty
+  let rs := WfBM.explain bm ++ wr
   let um := unmodelled bm
   let words := (bm.cps.map fun cp => cp.prog.length).sum
   s!"WF {if ok then 1 else 0} cf={if CfClosed bm then 1 else 0} reasons={if rs.isEmpty then "-" else ",".intercalate rs} unmodelled={if um.isEmpty then "-" else ",".intercalate um} words={words} cps={bm.cps.length}"
@@ -30,16 +45,18 @@ def verdict (bm0 : BM) : String :=
 def step (st : St) (line : String) : St × List String :=
   match fields line with
   | "CASE" :: _ => ({}, [line])
+  | "F" :: "S" :: _ => ({ st with wire := scanWiring (((line.drop 4).toString).splitOn "\\n") }, [line])
   | "F" :: _ => (st, [line])
+  | "FS" :: _ => ({ st with wire := scanWiring (((line.drop 3).toString).splitOn "\\n") }, [])
   | "R" :: _ => (st, [line])
-  | "M" :: _ => ({ bm := some (bmLine default line) }, [])
+  | "M" :: _ => ({ st with bm := some (bmLine default line) }, [])
   | "E" :: _ =>
     match st.bm with
-    | some bm => ({}, [verdict bm])
+    | some bm => ({}, [verdict st.wire bm])
     | none => (st, ["WF ? no-machine"])
   | _ =>
     match st.bm with
-    | some bm => ({ bm := some (bmLine bm line) }, [])
+    | some bm => ({ st with bm := some (bmLine bm line) }, [])
     | none => (st, [])
 
 def main : IO Unit := do
